@@ -1,6 +1,7 @@
 package main
 
 import (
+	"strconv"
 	"bufio"
 	"crypto/sha256"
 	"encoding/hex"
@@ -48,6 +49,9 @@ type wResult struct {
 func init() {
 	extraCommands["worker"] = func(args []string) {
 		debug.SetMaxStack(256 << 20)
+		if mb, err := strconv.Atoi(os.Getenv("VERIF_MAXSTACK_MB")); err == nil && mb > 0 {
+			debug.SetMaxStack(mb << 20)
+		}
 		keepScript := len(args) > 0 && args[0] == "scripts"
 		in := bufio.NewReaderSize(os.Stdin, 1<<20)
 		out := bufio.NewWriter(os.Stdout)
@@ -102,10 +106,10 @@ type workerProc struct {
 	errb *strings.Builder
 }
 
-func startWorker(mode string) *workerProc {
+func startWorker(mode string, env ...string) *workerProc {
 	exe, _ := os.Executable()
 	cmd := exec.Command(exe, "worker", mode)
-	cmd.Env = append(os.Environ(), "GOGC=400")
+	cmd.Env = append(append(os.Environ(), "GOGC=400"), env...)
 	in, _ := cmd.StdinPipe()
 	op, _ := cmd.StdoutPipe()
 	eb := &strings.Builder{}
